@@ -73,6 +73,11 @@ class Aff:
 
     __rmul__ = __mul__
 
+    def __truediv__(s, c):
+        if not _is_scalar(c):
+            raise TypeError("cvxpy stand-in: division by a non-scalar")
+        return Aff({k: v / c for k, v in s.terms.items()}, s.const / c)
+
     def __le__(s, o):
         return Constraint(s - o, 'le')
 
